@@ -132,6 +132,13 @@ CHECKS = {
         note="LCDs declared before the loop, servos before it or at its top",
         technique="exhaustive enumeration of device multiplicities and placements with a three-way set-agreement oracle",
     ),
+    "C02": dict(
+        category="model_checking",
+        text="For one name: 23 typed sources x 9 assignment scopes followed by type-revealing observers (value, arithmetic, f-string, derived variable, helper round trip, next loop pass); all ordered pairs of assignments (type classes x scopes) whose first declared type can represent both values; all ordered pairs of call sites with differently typed arguments on three helpers; all pairs (and three-way joins) of return expressions of different types in different branches. Every program is run on the mock core and the printed values are compared with CPython.",
+        design_ref="DESIGN.md §2 C02",
+        note="re-assignments the first declared type cannot represent (int then float, bool then int, number/str) are a known finding kept out of the product (witnesses in known_findings.json)",
+        technique="exhaustive enumeration of source-type x scope x order combinations + differential execution",
+    ),
 }
 
 NOT_YET = {}
